@@ -81,6 +81,7 @@ type ConnPlan struct {
 	Traffic    []TStep  `json:"traffic,omitempty"`
 	CloseAct   int      `json:"close_act,omitempty"`   // action returned by OnClose
 	CloseW     []WOp    `json:"close_w,omitempty"`     // writes issued inside OnClose (a parting message; delivery is best effort)
+	Magic      int      `json:"magic,omitempty"`       // 1-based index into magicAddrs: a peer address whose CRC-32 is a boundary value
 	DupKeep    bool     `json:"dup_keep,omitempty"`    // OnOpen: Conn.Dup(), the application keeps the duplicate open
 	CloseAgain int      `json:"close_again,omitempty"` // inside OnClose: 1 EventLoop.Close(c), 2 c.Close() (must be no-ops)
 	Start      int      `json:"start,omitempty"`       // decisions to wait before connecting
